@@ -20,6 +20,8 @@ var strPool = []string{
 	// JSON documents with white space AROUND them (a slurped file): quoted form today; a trimmed raw-form test or a
 	// heredoc-style reader rule would change them
 	"\n{\"a\": 1}\n", "\n{\"a\": 1}", "\r\n{\"a\": 1}", "{\"a\": 1}\n", "\n\n{\"k\":1}", "¬\n", "\n¬",
+	// JSON documents with Windows line endings (raw form holding CR LF), lone CR
+	"{\"a\":\r\n1}", "{\"k\": \"x\r\ny\"}", "{\"a\":\r1}", "a\r\nb", "\r",
 }
 
 var keyPool = []string{"a", "b", "c", "k", "key", "x y", "", "A", "ʞa", "ʞb", "ʞc", "ʞk", "ʞkey", "ʞx-y", "1", "%d", "a\tb", "ʞ%s"}
